@@ -228,7 +228,9 @@ class SearchKey(Parseable[bytes]):
             return cls(b'SEQSET', seq_set, inverse), buf
         elif key == b'HEADER':
             _, buf = Space.parse(after, params)
-            header_field, buf = cls._parse_astring_filter(buf, params)
+            # the field name is US-ASCII whatever the search charset is
+            header_field, buf = cls._parse_astring_filter(
+                buf, params.copy(charset='ascii'))
             _, buf = Space.parse(buf, params)
             header_value, buf = cls._parse_astring_filter(buf, params)
             return cls(key, (header_field, header_value), inverse), buf
